@@ -405,6 +405,8 @@ structure RawFile where
   rcMax : Nat
   publicMemory : List RawMem
   annotations : List String
+  /-- number of bytes of `proof_hex` (`none` when the member is absent) -/
+  proofBytes : Option Nat := none
   deriving DecidableEq, Repr
 
 /-! ### layouts, segments, dynamic parameters -/
@@ -602,6 +604,13 @@ def publicInputOf (r : RawFile) (dyn : Option (List Nat)) : Except String Public
 
 /-! ### the conversion -/
 
+/-- the prover messages cover the whole proof: when the file carries `proof_hex`, the tiling ends at its last byte
+    (a file whose last message lines are missing is truncated) -/
+def coversProof (proofBytes : Option Nat) (covered : Nat) : Except String Unit :=
+  match proofBytes with
+  | none => .ok ()
+  | some n => if covered = n then .ok () else .error "the prover messages do not cover proof_hex"
+
 /-- one commitment per inner FRI layer: `fri_step_list` has `n` entries, so layers `1 … n-1` are committed -/
 def friCommitCount (nLayers : Nat) (items : List Item) : Except String Unit :=
   if (items.filter isFriCommit).length + 1 = nLayers then .ok ()
@@ -611,7 +620,8 @@ def convert (r : RawFile) : Except String Stark.Proof := do
   let (consts, dyn) ← layoutOf r
   let cfg ← configOf r consts
   let pi ← publicInputOf r dyn
-  let _ ← tiles r.annotations 0
+  let covered ← tiles r.annotations 0
+  let _ ← coversProof r.proofBytes covered
   let items ← parseAnnotations r.annotations
   let _ ← friCommitCount r.friStepList.length items
   let u ← unsentOf items
@@ -678,6 +688,11 @@ def decode (j : Json) : Except String RawFile := do
       pure (⟨← natField m "address", ← natField m "page", ← asStr "value" (← field m "value")⟩ : RawMem))
     (← elems "public_memory" (← field pi "public_memory"))
   let ann ← mapE (asStr "annotation") (← elems "annotations" (← field j "annotations"))
+  let proofBytes ← match optField j "proof_hex" with
+    | none => pure none
+    | some h => do
+      let hex ← asStr "proof_hex" h
+      pure (some (((stripPrefix? "0x".toList hex.toList).getD hex.toList).length / 2))
   pure { friStepList := steps
          lastLayerDegreeBound := ← natField fri "last_layer_degree_bound"
          nQueries := ← natField fri "n_queries"
@@ -691,7 +706,8 @@ def decode (j : Json) : Except String RawFile := do
          rcMin := ← natField pi "rc_min"
          rcMax := ← natField pi "rc_max"
          publicMemory := mem
-         annotations := ann }
+         annotations := ann
+         proofBytes := proofBytes }
 
 def loadJson (j : Json) : Except String Stark.Proof := decode j >>= convert
 
